@@ -296,7 +296,10 @@ pub fn check_c19_step(net: &Net, st: &StepRecord) -> Option<String> {
     if let Some(f) = facts(&o.data) {
         let count = |f: &Facts| f.trace.iter().filter(|x| matches!(x, St::Sent(p, None) if p == me) || matches!(x, St::CanonSent(p) if p == me)).count();
         let before = facts(&st.prev).map(|f| count(&f)).unwrap_or(0) + facts(&st.cur).map(|f| count(&f)).unwrap_or(0);
-        if count(&f) > before && o.next_peer_pks.is_empty() && (o.ret_code == 0) {
+        // (whatever the return code: a run that fails catchably or reports unprocessed call results still returns the new data with
+        //  its fresh marks, and whoever reads such a mark later assumes the marker forwarded the particle; a run that fails
+        //  uncatchably returns the previous data, which holds no new mark)
+        if count(&f) > before && o.next_peer_pks.is_empty() {
             return Some("the run marked a call/canon as sent to another peer but names no next peer".into());
         }
     }
